@@ -105,13 +105,20 @@ class C14(Prop):
 
     def prepare(self, ctx):
         self.exe = E.compile_harness("c14", [os.path.join(E.VERIF, "harness/c14/c14.c")], exclude_objs=("comm.c.o",))
-        self.conf = E.make_mudlib(ctx.rundir)
+        self.conf = E.make_mudlib(ctx.rundir, master="/c14/master.c")
 
     def run_impl(self, ctx, cases):
         return E.run_harness(self.exe, self.conf, cases, ctx.rundir)
 
     def canon(self, lines):
-        return [l for l in Prop.canon(self, lines) if not (l.startswith("logon") or l.startswith("net_dead"))]
+        """every line is tagged u<k>; the property is per user, so the lines are grouped by user (stable): the order in
+        which the driver visits the users during one pass (slot order / epoll order) is not part of the comparison"""
+        ls = [l for l in Prop.canon(self, lines) if not (l.startswith("logon") or l.startswith("net_dead"))]
+
+        def key(l):
+            t = l.split(" ", 1)[0]
+            return int(t[1:]) if t[:1] == "u" and t[1:].isdigit() else 99
+        return sorted(ls, key=key)
 
     # ---- boundary -----------------------------------------------------------
     def boundary(self):
@@ -207,6 +214,25 @@ class C14(Prop):
         mk("console-epipe", ["connect console", "sendres P", w(b"x\n"), w(b"y\n"), "close"])
         mk("console-close-pending", ["connect console", "sendres W", w(b"abc\n"), "sendres 2", "close", w(b"z")])
         mk("ascii-explicit", ["connect ascii", w(b"a\n")])
+        # several users: independent rings and scripts, one pass of the driver serves all of them; snoop forwarding
+        mk("two-users-independent", ["@1 sendres W", "@2 sendres 2,I", w(b"one\n"), "@2 " + w(b"two\n"), "cycle", "wready",
+                                     "@2 dump"])
+        mk("three-users-kinds", ["@1 connect telnet", "@2 connect console", "@3 connect ascii", "@3 sendres W",
+                                 "@1 " + w(b"a\n"), "@2 " + w(b"b\n"), "@3 " + vw(b"c\n"), "flushall", "@2 dump", "@3 dump"])
+        mk("snoop-basic", ["@2 snoop 1", w(b"seen\n"), vw(b"also\n"), "@2 unsnoop", w(b"unseen\n"), "@2 dump"])
+        mk("snoop-broken-connection", ["@2 snoop 1", "sendres W,P", w(filler(N)), w(b"x"), w(b"y"), vw(b"z"), "@2 dump"])
+        mk("snoop-tail-dropped", ["@2 snoop 1", "sendres W,W", w(filler(N + 50)), vw(filler(60)), "@2 dump"])
+        mk("snoop-loop-refused", ["@2 snoop 1", "@1 snoop 2", w(b"a\n"), "@2 " + w(b"b\n"), "@3 snoop 2", "@1 snoop 3",
+                                  "@2 " + w(b"c\n"), "@3 " + w(b"d\n"), "@2 dump", "@3 dump"])
+        mk("snoop-replaced", ["@2 snoop 1", "@3 snoop 1", w(b"a\n"), "@3 snoop 2", w(b"b\n"), "@2 " + w(b"c\n"),
+                              "@2 dump", "@3 dump"])
+        mk("snooper-closes", ["@2 snoop 1", w(b"a\n"), "@2 close", w(b"b\n"), "@2 dump"])
+        mk("snoopee-closes", ["@2 snoop 1", "close", w(b"b\n"), "@2 snoop 1", "@2 dump"])
+        mk("snoop-high-bytes", ["@2 snoop 1", w(bytes([0xc3, 0xa9, 0xff, 0x80, 0x0a, 0xe2, 0x82])), "@2 dump"])
+        mk("efun-flush", ["sendres W", w(b"p\n"), "eflush", "@2 sendres 1,W", "@2 " + w(b"q\n"), "flushall", "@2 eflush", "@2 dump"])
+        mk("peerfin-serves-others", ["@2 sendres W", "@2 " + w(b"pending\n"), "@2 flush", "@1 peerfin", "@2 dump"])
+        mk("peerclose-serves-others", ["@2 sendres W", "@2 " + w(b"pending\n"), "@2 flush", "sendres W", w(b"mine\n"),
+                                       "sendres 2,P", "@1 peerclose", "@2 dump"])
         return B
 
     # ---- random ---------------------------------------------------------------
@@ -262,34 +288,50 @@ class C14(Prop):
     def gen_case(self, rng, cid):
         body = []
         offset = 0
-        kind = rng.weighted([("ascii", 5), ("telnet", 3), ("console", 3), (None, 2)])
-        if kind:
-            if rng.chance(1, 3):
-                body.append("sendres " + ",".join(self.gen_tok(rng, 0) for _ in range(rng.range(1, 3))))
-            body.append("connect " + kind)
+        nusers = rng.weighted([(1, 6), (2, 3), (3, 2)])
+        kinds = {}
+        have_console = False
+        for u in range(1, nusers + 1):
+            kind = rng.weighted([("ascii", 5), ("telnet", 3), ("console", 0 if have_console else 3), (None, 2)])
+            have_console = have_console or kind == "console"
+            kinds[u] = kind
+            if kind:
+                if rng.chance(1, 3):
+                    body.append("@%d sendres " % u + ",".join(self.gen_tok(rng, 0) for _ in range(rng.range(1, 3))))
+                body.append("@%d connect %s" % (u, kind))
         if rng.chance(1, 2):
             offset = rng.range(1, N - 1)
             body += [w(filler(offset, rng.below(1000))), "flush"]
-        closed_at = None
+        closed = {}
         for _ in range(rng.range(3, 25)):
-            if closed_at is not None and len(body) - closed_at > 3:
-                break           # after the connection went away only a few more ops are interesting
-            k = rng.weighted([("write", 10), ("vwrite", 3), ("sendres", 8), ("flush", 4), ("cycle", 3), ("wready", 4),
-                              ("close", 1), ("peerfin", 1), ("peerclose", 1), ("dump", 1)])
-            if kind == "console" and k in ("peerfin", "peerclose"):
+            if closed and len(closed) == nusers and len(body) - max(closed.values()) > 3:
+                break           # after every connection went away only a few more ops are interesting
+            u = rng.range(1, nusers)
+            at = "" if (u == 1 and rng.chance(1, 2)) else "@%d " % u
+            k = rng.weighted([("write", 10), ("vwrite", 3), ("sendres", 8), ("flush", 3), ("eflush", 1), ("cycle", 3),
+                              ("wready", 4), ("flushall", 1), ("close", 1), ("peerfin", 1), ("peerclose", 1), ("dump", 1),
+                              ("snoop", 3 if nusers > 1 else 0), ("unsnoop", 1 if nusers > 1 else 0)])
+            if kinds[u] == "console" and k in ("peerfin", "peerclose"):
                 k = "close"     # the console has no peer socket
             if k in ("write", "vwrite"):
-                body.append("%s %s" % (k, hx(self.gen_msg(rng, self.gen_len(rng)))))
+                ln = self.gen_len(rng)
+                if nusers > 1 and ln > N:
+                    ln = rng.choice([ln, rng.range(0, 200)])      # keep multi-user cases small enough for the quick tier
+                body.append("%s%s %s" % (at, k, hx(self.gen_msg(rng, ln))))
             elif k == "sendres":
-                body.append("sendres " + ",".join(self.gen_tok(rng, offset) for _ in range(rng.range(1, 6))))
+                body.append(at + "sendres " + ",".join(self.gen_tok(rng, offset if u == 1 else 0) for _ in range(rng.range(1, 6))))
             elif k in ("close", "peerfin", "peerclose"):
-                # closing makes the rest of the case trivial: at most once, and not in every case
-                if closed_at is None and rng.chance(1, 3):
-                    body.append(k)
-                    closed_at = len(body)
-            else:
+                # closing makes the rest of that user's case trivial: at most once per user, and not in every case
+                if u not in closed and rng.chance(1, 3):
+                    body.append(at + k)
+                    closed[u] = len(body)
+            elif k == "snoop":
+                body.append("%ssnoop %d" % (at, rng.range(1, nusers)))
+            elif k in ("cycle", "wready", "flushall"):
                 body.append(k)
-        body += ["flush", "dump"]
+            else:
+                body.append(at + k)
+        body += ["flushall"] + ["@%d dump" % u for u in range(1, nusers + 1)]
         return E.Case(cid, body, {"origin": "generated"})
 
     def generate(self, rng, n, tier):
@@ -307,6 +349,8 @@ class C14(Prop):
             pending = 0
             for l in impl.get(c.id, []):
                 t = l.split()
+                if t and t[0][:1] == "u" and t[0][1:].isdigit():
+                    t = t[1:]
                 if not t:
                     continue
                 if t[0] == "send" and len(t) >= 4:
